@@ -50,9 +50,10 @@ Section Sig.
 
   (* Exchange.AddPayloadIntegrity *)
   Definition add_payload_integrity (x : bexchange) (rs : N) : R (bexchange * bytes) :=
-    match hdr_get (bx_hdr x) (s2b "Digest") with
+    match hdr_values (bx_hdr x) (s2b "Digest") with
     | _ :: _ => Err
     | [] =>
+        if (rs <? 1) || (16384 <? rs) then Err else         (* record sizes no verifier accepts *)
         let* (stream, dg) := encode H256 D03 rs (bx_body x) in
         Ok ({| bx_url := bx_url x; bx_status := bx_status x;
                bx_hdr := hdr_add (hdr_add (bx_hdr x) (s2b "Content-Encoding") (content_encoding D03))
